@@ -3,7 +3,7 @@ from .. import core, gen
 from . import vcdfam
 
 PID = "C15"
-LEVEL = "translation_validation"
+LEVEL = "proof"
 RULE = ("every truncation offset of the body of generated VCD files (cuts inside timestamps, values, identifier codes, "
         "reals, strings, $comment blocks, directly after $enddefinitions $end, at line ends) is loaded single-threaded by "
         "path, through a reader and multi-threaded. Oracle: never PANIC/HANG; ERR, or a waveform whose time table without "
@@ -168,7 +168,8 @@ def run(res, rng, tier, model_ok, replay=None):
                     if len(toks) == 2 and len(toks[0]) > 1 and toks[1] in tpe_of:
                         sg = tpe_of[toks[1]]
                         k = toks[0][:1].lower()
-                        names_other = (k == b"b" and sg.tpe == "b" and (len(toks[0]) - 1 == sg.width or
+                        valid = all(ch in b"01xXzZhHuUwWlL-" for ch in toks[0][1:])      # a value the variable can take
+                        names_other = (k == b"b" and sg.tpe == "b" and valid and (len(toks[0]) - 1 == sg.width or
                                                                         (len(toks[0]) - 1 < sg.width and toks[0][1:2] in b"01xXzZ"))) or \
                                       (k == b"r" and sg.tpe == "r") or (k == b"s" and sg.tpe == "s")
                     # (a value of one kind that lands on a variable of another kind - `r1.5` on a bit vector - panics on
